@@ -258,7 +258,7 @@ def extract():
 # the unusual characters of the generator's alphabet (harness/props/C12.py draws Q texts, tag names, attribute values
 # and punctuation from it); which of them Python's str.isprintable() rejects is computed by RUNNING Python (a recorded
 # assumption: this is how repr() decides what to escape)
-CHAR_ALPHABET = [0x09, 0x0c, 0x01, 0x1b, 0x7f, 0x85, 0xa0, 0xad, 0x200b, 0x2028, 0xfeff, 0xfffe, 0xd7ff, 0xe9, 0x20ac,
+CHAR_ALPHABET = [0x00, 0x0d, 0x09, 0x0c, 0x01, 0x1b, 0x7f, 0x85, 0xa0, 0xad, 0x200b, 0x2028, 0xfeff, 0xfffe, 0xd7ff, 0xe9, 0x20ac,
                  0x1f600, 0x1d11e, 0xe0001, 0xe0020, 0xe007f, 0xf0000, 0x10fffd]
 
 
